@@ -1,6 +1,9 @@
 from .runner import M
 
 F = "src/allmydata/web/filenode.py"
+FM = "src/allmydata/mutable/filenode.py"
+FR = "src/allmydata/mutable/retrieve.py"
+_RET_ALL = "            return [ parse_range(r.strip()) for r in rangeset.split(',') ]\n"
 
 MUTANTS = [
     # ---- C40.1 announced = served
@@ -199,7 +202,99 @@ MUTANTS = [
       "        filename = get_arg(req, b\"filename\", self.name) or \"unknown\"\n"
       "        version_d = self.node.get_best_readable_version()\n"
       "        version_d.addCallback(lambda version: FileDownloader(version, filename))\n        return version_d\n", None),
+    # ---- C40.10 every byte-range-spec of the set is parsed
+    M("only-first-spec-parsed", F, _RET_ALL,
+      "            first_spec = rangeset.split(',', 1)[0]\n"
+      "            return [ parse_range(first_spec.strip()) ]\n", "C40.10"),
+    M("first-spec-by-slice", F, _RET_ALL,
+      "            return [ parse_range(r.strip()) for r in rangeset.split(',')[:1] ]\n", "C40.10"),
+    M("maxsplit-hides-later-specs", F, _RET_ALL,
+      "            specs = rangeset.split(',', 1)\n"
+      "            return [ parse_range(r.strip()) for r in specs[:1] ]\n", "C40.10"),
+    M("later-specs-filtered-out", F, _RET_ALL,
+      "            return [ parse_range(r.strip()) for r in rangeset.split(',') if '-' in r ]\n", "C40.10"),
+    M("loop-stops-after-first", F, _RET_ALL,
+      "            out = []\n"
+      "            for r in rangeset.split(','):\n"
+      "                out.append(parse_range(r.strip()))\n"
+      "                break\n"
+      "            return out\n", "C40.10"),
+    M("loop-skips-odd-specs", F, _RET_ALL,
+      "            out = []\n"
+      "            for r in rangeset.split(','):\n"
+      "                if out and not r.strip()[:1].isdigit():\n"
+      "                    continue\n"
+      "                out.append(parse_range(r.strip()))\n"
+      "            return out\n", "C40.10"),
+    M("benign-specs-hoisted", F, _RET_ALL,
+      "            specs = rangeset.split(',')\n"
+      "            self.log_specs = len(specs)\n"
+      "            return [ parse_range(spec.strip()) for spec in specs ]\n", None),
+    M("benign-strip-first-then-parse", F, _RET_ALL,
+      "            specs = [ s.strip() for s in rangeset.split(',') ]\n"
+      "            return list(parse_range(s) for s in specs)\n", None),
+    M("benign-loop-built", F, _RET_ALL,
+      "            out = []\n"
+      "            for r in rangeset.split(','):\n"
+      "                r = r.strip()\n"
+      "                out.append(parse_range(r))\n"
+      "            return out\n", None),
+    M("benign-map", F, _RET_ALL,
+      "            return list(map(lambda r: parse_range(r.strip()), rangeset.split(',')))\n", None),
+    M("benign-single-range-fast-path", F, _RET_ALL,
+      "            if ',' not in rangeset:\n"
+      "                return [ parse_range(rangeset.strip()) ]\n"
+      "            return [ parse_range(r.strip()) for r in rangeset.split(',') ]\n", None),
+    # ---- C40.11 MutableFileVersion.read -> Retrieve.download
+    M("mutable-read-drops-size", FM,
+      "        d = r.download(consumer, offset, size)\n", "        d = r.download(consumer, offset)\n", "C40.11"),
+    M("mutable-read-swaps-offset-size", FM,
+      "        return self._do_serialized(self._read, consumer, offset, size,\n"
+      "                                   fetch_privkey)\n",
+      "        return self._do_serialized(self._read, consumer, size, offset,\n"
+      "                                   fetch_privkey)\n", "C40.11"),
+    M("mutable-read-size-is-end", FM,
+      "        d = r.download(consumer, offset, size)\n",
+      "        d = r.download(consumer, offset, offset + size if size else size)\n", "C40.11"),
+    M("benign-mutable-read-keywords", FM,
+      "        d = r.download(consumer, offset, size)\n",
+      "        d = r.download(size=size, consumer=consumer, offset=offset)\n", None),
+    M("benign-mutable-read-kw-handover", FM,
+      "        return self._do_serialized(self._read, consumer, offset, size,\n"
+      "                                   fetch_privkey)\n",
+      "        return self._do_serialized(self._read, consumer, offset, size=size,\n"
+      "                                   fetch_privkey=fetch_privkey)\n", None),
+    # ---- C40.12 (C09.5 / C09.8 / C09.12 / C09.18 adopted): the bytes behind read(offset, size) of a mutable file
+    M("tail-length-for-last-segment-of-read", FR,
+      "            if segnum == self._num_segments - 1:\n                size_to_use = self._tail_data_size\n",
+      "            if segnum == self._last_segment:\n                size_to_use = self._tail_data_size\n", "C40.12"),
+    M("tail-length-for-current-last", FR,
+      "            if segnum == self._num_segments - 1:\n                size_to_use = self._tail_data_size\n",
+      "            if self._current_segment >= self._last_segment:\n                size_to_use = self._tail_data_size\n",
+      "C40.12"),
+    M("read-tail-cut-for-file-last-segment", FR,
+      "        if self._current_segment == self._last_segment:\n            # trim off the tail\n",
+      "        if self._current_segment == self._num_segments - 1:\n            # trim off the tail\n", "C40.12"),
+    M("end-segment-includes-end-byte", FR,
+      "        end = (end_data - 1) // self._segment_size\n", "        end = end_data // self._segment_size\n", "C40.12"),
+    M("open-ended-read-ignores-offset", FR,
+      "            size = self._data_length - offset\n", "            size = self._data_length\n", "C40.12"),
+    M("benign-tail-test-rewritten", FR,
+      "            if segnum == self._num_segments - 1:\n                size_to_use = self._tail_data_size\n",
+      "            is_tail = (segnum + 1 == self._num_segments)\n"
+      "            if is_tail:\n                size_to_use = self._tail_data_size\n", None),
+    M("benign-tail-branches-swapped", FR,
+      "            if segnum == self._num_segments - 1:\n                size_to_use = self._tail_data_size\n"
+      "            else:\n                size_to_use = self._segment_size\n",
+      "            if segnum != self._num_segments - 1:\n                size_to_use = self._segment_size\n"
+      "            else:\n                size_to_use = self._tail_data_size\n", None),
     # ---- vanished anchor
+    M("vanish-mutable-version-read", FM,
+      "    def read(self, consumer, offset=0, size=None, fetch_privkey=False):",
+      "    def read_range(self, consumer, offset=0, size=None, fetch_privkey=False):", "ANALYSIS-ERROR"),
+    M("vanish-parse-range", F,
+      "            def parse_range(r):\n", "            def parse_one(r):\n", "ANALYSIS-ERROR",
+      edits=[(F, _RET_ALL, "            return [ parse_one(r.strip()) for r in rangeset.split(',') ]\n")]),
     M("vanish-parse-range-header", F,
       "    def parse_range_header(self, range_header):", "    def parse_range_headerX(self, range_header):",
       "ANALYSIS-ERROR"),
